@@ -1532,7 +1532,7 @@ class Interp:
                 cur = env2[tgt["id"]]
                 if tgt["name"] in summ.carried:
                     continue
-                if isinstance(cur, sp.Basic) and not isinstance(cur, sp.logic.boolalg.Boolean):
+                if isinstance(cur, sp.Expr):
                     symc = S("$" + tgt["name"], real=True)
                     summ.carried[tgt["name"]] = (symc, cur)
                     env2[tgt["id"]] = symc
